@@ -252,6 +252,7 @@ class Interp:
         self.solver_timeout_ms = 600000
         self.lazy_feasibility = False   # True: every symbolic branch forks (no solver call); infeasible paths are the harness's business
         self.hard_feasibility = False   # affine interpreter: decide lazy feasibility queries in a child process with a hard deadline
+        self.external_globals_symbolic = False   # True: an external global without definition holds arbitrary (symbolic) bytes instead of ending the path
         self.keep_after_lifetime_end = False   # harnesses that inspect a local object after the function returned
         self.max_call_depth = 200
         self.external_handler = None
@@ -285,7 +286,14 @@ class Interp:
         if g.init is not None:
             self._init_const(o, 0, g.ty, g.init, lay)
         elif g.external:
-            raise ExecError("unsupported", "external global without definition @" + name)
+            if not self.external_globals_symbolic:
+                raise ExecError("unsupported", "external global without definition @" + name)
+            # opt-in (harnesses that want to follow a path to its memory accesses): an external object holds arbitrary bytes
+            o.const = True
+            for k in range(0, size - size % 8, 8):
+                o.cells[k] = (8, self.fresh("ext", 64))
+            for k in range(size - size % 8, size):
+                o.cells[k] = (1, self.fresh("ext", 8))
         return o
 
     def _init_const(self, o, off, ty, v, lay):
@@ -1228,6 +1236,11 @@ class Interp:
         if f is None or f.is_decl:
             if self.external_handler is not None:
                 return self.external_handler(self, name, args, site)
+            d = self.prog.demangled.get(name, name)
+            if "::" in d and d.rstrip().endswith(")") and args and isinstance(args[0], Ptr) and args[0].obj is not None and args[0].obj.const:
+                # a mutating (non-const) member function, whose body this program does not contain, is called on an object the harness handed
+                # over as a read-only input: the callee writes *this
+                raise MemViolation("const", "non-const member %s called on the read-only input %s" % (d.split("(")[0], args[0].obj.name))
             raise ExecError("unsupported", "call to external function " + name)
         return self.call_function(f, args)
 
